@@ -1093,3 +1093,260 @@ Print Assumptions C08_std_contain_file_agree.
 Example C08_std_contain_file_inhabited :
   std_file_case (B "file://h.x/tmp/dir/x?q#f") [B "y"; B "a/../b?k#g"; B "../../../up"; B "./z/"; B " s\t"] = true.
 Proof. exact std_contain_file_inhabited. Qed.
+
+(* ================= 11. the STANDARD-side reading of containment for FILE bases: the file state's simple arms and the
+   file slash state ================= *)
+(* Beside section 10 (path-relative references): (11.1) the empty reference and references whose first character is
+   '?' or '#' - the Standard's file state copies host, path (and query) of the base; (11.2) references with exactly ONE
+   leading '/' or '\' (the next character is neither) - the Standard's file slash state, "otherwise" arm: the host of
+   the base is kept and the first segment of the base path is carried over when it is a normalized Windows drive letter
+   and the text behind the separator does not start with a drive letter.  The side conditions are computable predicates
+   on the cleaned reference text.  There is NO drive-letter exclusion on the Standard's side of (11.2): "/C:/x" against
+   file://h.x/p keeps the host h.x in the Standard (parser.rs drops it: C08_1_refuted, F-C01-1 / F-C08-1). *)
+From RU Require Import Proofs.C01_EqFileSpec Proofs.C01_EqFileOne Proofs.C08_StdFileSlash.
+Open Scope N_scope.
+
+(* 11.1 empty / '?q' / '#f' (no hypothesis on the scheme is needed): success, the five front components and the path are
+   the base's *)
+Theorem C08_std_contain_file_simple : forall shp input sb, spec_valid sb -> has_opaque_path sb = false ->
+  std_file_simple_pre (spec_clean input) = true ->
+  exists su, spec_basic_url_parse shp input (Some sb) = BDone su /\ spec_same_front sb su /\ su_path su = su_path sb.
+Proof. exact std_contain_file_simple. Qed.
+Check C08_std_contain_file_simple : forall shp input sb, spec_valid sb -> has_opaque_path sb = false ->
+  match spec_clean input with [] => true | c :: _ => (c =? 63) || (c =? 35) end = true ->
+  exists su, spec_basic_url_parse shp input (Some sb) = BDone su
+    /\ (su_scheme su = su_scheme sb /\ su_username su = su_username sb /\ su_password su = su_password sb
+        /\ su_host su = su_host sb /\ su_port su = su_port sb)
+    /\ su_path su = su_path sb.
+Print Assumptions C08_std_contain_file_simple.
+
+(* 11.2 one leading '/' or '\' against a file base: success, the five front components are the base's, and the closed
+   form of the result: the path state run on the text behind the separator from the segment list one_init (the
+   normalized drive letter of the base, or empty) *)
+Theorem C08_std_contain_file_one : forall shp input sb, spec_valid sb -> has_opaque_path sb = false ->
+  list_eqb (su_scheme sb) str_file = true -> std_file_one_pre (spec_clean input) = true ->
+  exists su, spec_basic_url_parse shp input (Some sb) = BDone su /\ spec_same_front sb su
+    /\ su = file_tail (fkeep sb (one_init sb (tl (spec_clean input))))
+                      (spath_f (tl (spec_clean input)) (one_init sb (tl (spec_clean input))) []).
+Proof. exact std_contain_file_one. Qed.
+Check C08_std_contain_file_one : forall shp input sb, spec_valid sb -> has_opaque_path sb = false ->
+  list_eqb (su_scheme sb) str_file = true ->
+  match spec_clean input with
+  | c1 :: R1 => is_sl c1 && match R1 with c2 :: _ => negb (is_sl c2) | [] => true end
+  | [] => false
+  end = true ->
+  exists su, spec_basic_url_parse shp input (Some sb) = BDone su
+    /\ (su_scheme su = su_scheme sb /\ su_username su = su_username sb /\ su_password su = su_password sb
+        /\ su_host su = su_host sb /\ su_port su = su_port sb)
+    /\ su = file_tail (fkeep sb (one_init sb (tl (spec_clean input))))
+                      (spath_f (tl (spec_clean input)) (one_init sb (tl (spec_clean input))) []).
+Print Assumptions C08_std_contain_file_one.
+
+(* 11.3 all proved scheme-less reference shapes against a file base together (11.1, 11.2, 10.1; the three premises are
+   pairwise disjoint: std_file_pre_disjoint).  Outside: two leading slash characters (the authority is the
+   reference's), a reference starting with a Windows drive letter, a path-relative reference against a base whose path
+   ENDS in a normalized drive letter *)
+Theorem C08_std_contain_file_all : forall shp input sb, spec_valid sb -> has_opaque_path sb = false ->
+  list_eqb (su_scheme sb) str_file = true -> std_file_all_pre sb (spec_clean input) = true ->
+  exists su, spec_basic_url_parse shp input (Some sb) = BDone su /\ spec_same_front sb su.
+Proof. exact std_contain_file_all. Qed.
+Check C08_std_contain_file_all : forall shp input sb, spec_valid sb -> has_opaque_path sb = false ->
+  list_eqb (su_scheme sb) str_file = true ->
+  (std_file_simple_pre (spec_clean input) || std_file_one_pre (spec_clean input)
+   || (std_file_rel_pre (spec_clean input) && last_not_nwdl (Whatwg.path_segments sb))) = true ->
+  exists su, spec_basic_url_parse shp input (Some sb) = BDone su
+    /\ su_scheme su = su_scheme sb /\ su_username su = su_username sb /\ su_password su = su_password sb
+    /\ su_host su = su_host sb /\ su_port su = su_port sb.
+Print Assumptions C08_std_contain_file_all.
+
+(* 11.4 the crate's join agrees on the one-slash references of C01's classes in_class_file_rel_one (nothing carried:
+   base with a host field whose first path segment is not a normalized drive letter and no drive letter behind the
+   separator - or a drive letter behind the separator and a base with the EMPTY host) and in_class_file_rel_one_carry
+   (base with the empty host and a normalized drive letter as first segment, carried over by both sides); the path loop
+   inside fpath_ok / strip_stable: the Standard succeeds keeping the front, and the model answers Overflow (then the
+   Standard's href is beyond u32::MAX) or a record related to the Standard's result, a full_base pair again, whose API
+   strings protocol, username, password, host, hostname, port are the base's.  One hypothesis on the Standard's host
+   serializer (the empty host serializes to the empty text - true of spec_host_serializer), none on the host parsers *)
+Theorem C08_std_contain_file_one_agree : forall dbg hp hpo hd shp shs, shs SEmpty = [] -> forall b sb input,
+  usv_list input -> related dbg shs b sb -> spec_base_ok sb = true -> in_class_file_one_any sb input = true ->
+  exists su, spec_basic_url_parse shp input (Some sb) = BDone su /\ spec_same_front sb su
+    /\ ((join dbg hp hpo hd b input = PErr Overflow /\ U32_MAX_P < nlen (get_href shs su))
+        \/ exists u', join dbg hp hpo hd b input = POk u' /\ related dbg shs u' su /\ full_base dbg shs u' su
+                      /\ option_map api_front (api_of_model dbg u') = option_map api_front (api_of_model dbg b)).
+Proof. exact std_contain_file_one_agree. Qed.
+Check C08_std_contain_file_one_agree : forall dbg hp hpo hd shp shs, shs SEmpty = [] -> forall b sb input,
+  usv_list input -> related dbg shs b sb -> spec_base_ok sb = true ->
+  (in_class_file_rel_one sb input || in_class_file_rel_one_carry sb input) = true ->
+  exists su, spec_basic_url_parse shp input (Some sb) = BDone su /\ spec_same_front sb su
+    /\ ((parse_url dbg hp hpo hd None (Some b) input = PErr Overflow /\ U32_MAX_P < nlen (get_href shs su))
+        \/ exists u', parse_url dbg hp hpo hd None (Some b) input = POk u' /\ related dbg shs u' su
+                      /\ full_base dbg shs u' su
+                      /\ option_map api_front (api_of_model dbg u') = option_map api_front (api_of_model dbg b)).
+Print Assumptions C08_std_contain_file_one_agree.
+
+(* non-vacuity (host model with idna_clean): on the Standard alone, against file://h.x/tmp/d?q the references "", "?x",
+   "#f", "/p", "\p", "/C:/x" (host kept by the Standard) and " /a/../b?k#g" meet 11.1 / 11.2 and hence 11.3, the Standard
+   succeeds and scheme, host, hostname, port texts are the base's; the same against the drive-letter base
+   file:///C:/tmp/d?q; with the crate: "/p", "\p", "/a/../b?k#g" against file://h.x/tmp/d?q are in the class of 11.4, both
+   sides succeed with the serialization shown; "/p" and "/" against file:///C:/tmp/d?q are in the carry class and the
+   drive letter stays: file:///C:/p, file:///C:/ *)
+Example C08_std_contain_file_slash_inhabited :
+  std_fs_case (B "file://h.x/tmp/d?q") [B ""; B "?x"; B "#f"; B "/p"; B "\p"; B "/C:/x"; B " /a/../b?k#g"] = true
+  /\ std_fs_case (B "file:///C:/tmp/d?q") [B ""; B "?x"; B "#f"; B "/p"; B "\p"] = true
+  /\ std_fs_agree_case (B "file://h.x/tmp/d?q")
+       [(B "/p", B "file://h.x/p"); (B "\p", B "file://h.x/p"); (B "/a/../b?k#g", B "file://h.x/b?k#g")] = true
+  /\ std_fs_agree_case (B "file:///C:/tmp/d?q") [(B "/p", B "file:///C:/p"); (B "/", B "file:///C:/")] = true.
+Proof. exact std_contain_file_slash_inhabited. Qed.
+
+(* 11.5 path-relative references against ANY file base: section 10.1 without its premise on the last segment of the base
+   path - the Standard's "shorten" in general form (shorten_f: a path that is a single normalized drive letter is kept,
+   otherwise the last segment goes); success, the front is the base's, closed form of the result *)
+Theorem C08_std_contain_file_rel_any : forall shp input sb, spec_valid sb -> has_opaque_path sb = false ->
+  list_eqb (su_scheme sb) str_file = true -> std_file_rel_pre (spec_clean input) = true ->
+  exists su, spec_basic_url_parse shp input (Some sb) = BDone su /\ spec_same_front sb su
+    /\ su = file_tail (fkeep sb (shorten_f (Whatwg.path_segments sb)))
+                      (spath_f (spec_clean input) (shorten_f (Whatwg.path_segments sb)) []).
+Proof. exact std_contain_file_rel_any. Qed.
+Check C08_std_contain_file_rel_any : forall shp input sb, spec_valid sb -> has_opaque_path sb = false ->
+  list_eqb (su_scheme sb) str_file = true ->
+  (match spec_scheme (spec_clean input) with None => true | Some _ => false end
+   && match spec_clean input with
+      | c :: _ => negb (is_sl c) && negb (c =? 63) && negb (c =? 35)
+                  && negb (starts_with_windows_drive_letter (spec_clean input))
+      | [] => false
+      end) = true ->
+  exists su, spec_basic_url_parse shp input (Some sb) = BDone su
+    /\ (su_scheme su = su_scheme sb /\ su_username su = su_username sb /\ su_password su = su_password sb
+        /\ su_host su = su_host sb /\ su_port su = su_port sb)
+    /\ su = file_tail (fkeep sb (shorten_f (Whatwg.path_segments sb)))
+                      (spath_f (spec_clean input) (shorten_f (Whatwg.path_segments sb)) []).
+Print Assumptions C08_std_contain_file_rel_any.
+
+(* 11.6 the Standard-side containment law for FILE bases with NO premise on the base path: every file base record
+   (spec_valid, not opaque) and every reference whose cleaned text is empty, '?'-led, '#'-led, led by exactly one '/' or
+   '\', or scheme-less with a first character outside '/', '\', '?', '#' and not starting with a Windows drive letter.
+   Outside: a reference with a scheme, two leading slash characters (the authority is the reference's), a scheme-less
+   reference starting with a Windows drive letter ("C|/y"): 11.7, and all of them together: 11.8 *)
+Theorem C08_std_contain_file_any : forall shp input sb, spec_valid sb -> has_opaque_path sb = false ->
+  list_eqb (su_scheme sb) str_file = true -> std_file_any_pre (spec_clean input) = true ->
+  exists su, spec_basic_url_parse shp input (Some sb) = BDone su /\ spec_same_front sb su.
+Proof. exact std_contain_file_any. Qed.
+Check C08_std_contain_file_any : forall shp input sb, spec_valid sb -> has_opaque_path sb = false ->
+  list_eqb (su_scheme sb) str_file = true ->
+  (std_file_simple_pre (spec_clean input) || std_file_one_pre (spec_clean input)
+   || std_file_rel_pre (spec_clean input)) = true ->
+  exists su, spec_basic_url_parse shp input (Some sb) = BDone su
+    /\ su_scheme su = su_scheme sb /\ su_username su = su_username sb /\ su_password su = su_password sb
+    /\ su_host su = su_host sb /\ su_port su = su_port sb.
+Print Assumptions C08_std_contain_file_any.
+(* non-vacuity: bases file:///C: (the drive letter is not shortened away: "x" gives file:///C:/x, "../y?k" gives
+   file:///C:/y?k), file://h.x/a/C: (a drive-letter-shaped LAST segment that is not the first is dropped as usual) and
+   file://h.x/tmp/d?q with the references "", "?x", "#f", "/p", "\p", "e/f": premise met, the Standard succeeds with the
+   href shown, scheme / host / port those of the base *)
+Example C08_std_contain_file_any_inhabited :
+  std_fs_any_case (B "file:///C:") [(B "x", B "file:///C:/x"); (B "../y?k", B "file:///C:/y?k"); (B "", B "file:///C:");
+                                    (B "/p", B "file:///C:/p")] = true
+  /\ std_fs_any_case (B "file://h.x/a/C:") [(B "x", B "file://h.x/a/x"); (B "..", B "file://h.x/"); (B "/D:/z", B "file://h.x/D:/z")] = true
+  /\ std_fs_any_case (B "file://h.x/tmp/d?q") [(B "", B "file://h.x/tmp/d?q"); (B "?x", B "file://h.x/tmp/d?x");
+       (B "#f", B "file://h.x/tmp/d?q#f"); (B "/p", B "file://h.x/p"); (B "\p", B "file://h.x/p"); (B "e/f", B "file://h.x/tmp/e/f")] = true.
+Proof. exact std_contain_file_any_inhabited. Qed.
+
+(* 11.7 a scheme-less reference that starts with a Windows drive letter ("C|/y"; with ':' the letter is a scheme) against
+   a file base: the Standard's file state takes the host of the base and the EMPTY path - the host is KEPT (parser.rs
+   drops it: the drive-letter branches of parse_file, F-C08-1) *)
+Theorem C08_std_contain_file_drive : forall shp input sb, spec_valid sb -> has_opaque_path sb = false ->
+  list_eqb (su_scheme sb) str_file = true -> spec_scheme (spec_clean input) = None ->
+  starts_with_windows_drive_letter (spec_clean input) = true ->
+  exists su, spec_basic_url_parse shp input (Some sb) = BDone su /\ spec_same_front sb su
+    /\ su = file_tail (fkeep sb []) (spath_f (spec_clean input) [] []).
+Proof. exact std_contain_file_drive. Qed.
+Print Assumptions C08_std_contain_file_drive.
+
+(* 11.8 the Standard-side containment law for FILE bases in full: the premise of 8.2 (reference without scheme and
+   without two leading slash characters, '\' counting) and nothing else - no premise on the base path, no drive-letter
+   exclusion on the reference *)
+Theorem C08_std_contain_file_full : forall shp input sb, spec_valid sb -> has_opaque_path sb = false ->
+  list_eqb (su_scheme sb) str_file = true -> std_contain_pre sb (spec_clean input) = true ->
+  exists su, spec_basic_url_parse shp input (Some sb) = BDone su /\ spec_same_front sb su.
+Proof. exact std_contain_file_full. Qed.
+Check C08_std_contain_file_full : forall shp input sb, spec_valid sb -> has_opaque_path sb = false ->
+  list_eqb (su_scheme sb) str_file = true ->
+  (negb (has_scheme_b (spec_clean input))
+   && negb (two_leading_slashes (is_special_scheme (su_scheme sb)) (spec_clean input))) = true ->
+  exists su, spec_basic_url_parse shp input (Some sb) = BDone su
+    /\ su_scheme su = su_scheme sb /\ su_username su = su_username sb /\ su_password su = su_password sb
+    /\ su_host su = su_host sb /\ su_port su = su_port sb.
+Print Assumptions C08_std_contain_file_full.
+
+(* 11.9 = 8.2 without its premise on the scheme: the Standard-side containment law for EVERY base record that is not
+   opaque.  Reference without scheme and without two leading slash characters ('\' counting only when the base's scheme
+   is special): the Standard never fails and scheme, username, password, host and port of the result are the base's -
+   for every host parser *)
+Theorem C08_std_contain_every : forall shp input sb, spec_valid sb -> has_opaque_path sb = false ->
+  std_contain_pre sb (spec_clean input) = true ->
+  exists su, spec_basic_url_parse shp input (Some sb) = BDone su /\ spec_same_front sb su.
+Proof. exact std_contain_every. Qed.
+Check C08_std_contain_every : forall shp input sb,
+  ((has_opaque_path sb = true -> su_host sb = None /\ su_username sb = [] /\ su_password sb = [] /\ su_port sb = None)
+   /\ (su_scheme sb = str_file -> su_username sb = [] /\ su_password sb = [] /\ su_port sb = None)) ->
+  has_opaque_path sb = false ->
+  (negb (has_scheme_b (spec_clean input))
+   && negb (two_leading_slashes (is_special_scheme (su_scheme sb)) (spec_clean input))) = true ->
+  exists su, spec_basic_url_parse shp input (Some sb) = BDone su
+    /\ su_scheme su = su_scheme sb /\ su_username su = su_username sb /\ su_password su = su_password sb
+    /\ su_host su = su_host sb /\ su_port su = su_port sb.
+Print Assumptions C08_std_contain_every.
+(* non-vacuity: against file://h.x/tmp/d?q the references "", "?x", "#f", "/p", "\p", "e/f" and the drive-letter references
+   "C|/y", "/C:/x", "/C|" (the Standard keeps h.x in all three: file://h.x/C:/y, file://h.x/C:/x, file://h.x/C:); against
+   file:///C:/a/b "/p" (drive letter carried), "/D|/p" (not carried), "..", "../../.." (the drive letter is never
+   shortened away), "D|"; against https://u:p@h.x:8/a/b?q "/C:/x" and "\z": premise met, success, front kept, href shown *)
+Example C08_std_contain_every_inhabited :
+  std_every_case (B "file://h.x/tmp/d?q")
+    [(B "", B "file://h.x/tmp/d?q"); (B "?x", B "file://h.x/tmp/d?x"); (B "#f", B "file://h.x/tmp/d?q#f");
+     (B "/p", B "file://h.x/p"); (B "\p", B "file://h.x/p"); (B "e/f", B "file://h.x/tmp/e/f");
+     (B "C|/y", B "file://h.x/C:/y"); (B "/C:/x", B "file://h.x/C:/x"); (B "/C|", B "file://h.x/C:")] = true
+  /\ std_every_case (B "file:///C:/a/b") [(B "/p", B "file:///C:/p"); (B "/D|/p", B "file:///D:/p"); (B "..", B "file:///C:/");
+       (B "../../..", B "file:///C:/"); (B "D|", B "file:///D:")] = true
+  /\ std_every_case (B "https://u:p@h.x:8/a/b?q") [(B "/C:/x", B "https://u:p@h.x:8/C:/x"); (B "\z", B "https://u:p@h.x:8/z")] = true.
+Proof. exact std_contain_every_inhabited. Qed.
+
+(* 11.10 where parser.rs leaves the law of 11.8 (the known finding F-C01-1 / F-C08-1 read on the Standard's side): both
+   references meet the premise of 11.8 against the base file://h.x/tmp/d; the Standard keeps the host (file://h.x/C:/y,
+   file://h.x/C:/x), the model of Url::join drops it (file:///C:/y, file:///C:/x) *)
+Theorem C08_std_file_drive_divergence :
+  std_file_diverge_case (B "file://h.x/tmp/d") (B "C|/y") (B "file://h.x/C:/y") (B "file:///C:/y") = true
+  /\ std_file_diverge_case (B "file://h.x/tmp/d") (B "/C:/x") (B "file://h.x/C:/x") (B "file:///C:/x") = true.
+Proof. exact std_file_drive_divergence. Qed.
+Print Assumptions C08_std_file_drive_divergence.
+
+(* 11.11 transfer: for ANY related pair of base records that is not opaque (file or not) and ANY reference meeting the
+   Standard-side premise on which the model's answer agrees with the Standard's (agree_good - the conclusion of every
+   class theorem of C01): the Standard succeeds keeping the front, and the model answers Overflow or a related record
+   whose API strings protocol, username, password, host, hostname, port are the base's.  So every present and future
+   class of the C01 equivalence gives containment of the crate's join at no extra cost *)
+Theorem C08_std_contain_transfer : forall dbg hp hpo hd shp shs b sb input,
+  related dbg shs b sb -> has_opaque_path sb = false -> std_contain_pre sb (spec_clean input) = true ->
+  agree_good dbg shs (join dbg hp hpo hd b input) (spec_basic_url_parse shp input (Some sb)) ->
+  exists su, spec_basic_url_parse shp input (Some sb) = BDone su /\ spec_same_front sb su /\ spec_base_ok su = true
+    /\ ((join dbg hp hpo hd b input = PErr Overflow /\ U32_MAX_P < nlen (get_href shs su))
+        \/ exists u', join dbg hp hpo hd b input = POk u' /\ related dbg shs u' su
+                      /\ option_map api_front (api_of_model dbg u') = option_map api_front (api_of_model dbg b)).
+Proof. exact std_contain_transfer. Qed.
+Print Assumptions C08_std_contain_transfer.
+
+(* 11.12 the drive-letter reference ("C|/y") with the crate: C01's class in_class_file_rel_drive (file base with the
+   EMPTY host, the path loop inside fp_ok): the Standard succeeds keeping the front and the crate's join answers Overflow
+   or a related record, a full_base pair again, with the base's front API strings *)
+Theorem C08_std_contain_file_drive_agree : forall dbg hp hpo hd shp shs, shs SEmpty = [] -> forall b sb input,
+  usv_list input -> related dbg shs b sb -> in_class_file_rel_drive sb input = true ->
+  exists su, spec_basic_url_parse shp input (Some sb) = BDone su /\ spec_same_front sb su
+    /\ ((join dbg hp hpo hd b input = PErr Overflow /\ U32_MAX_P < nlen (get_href shs su))
+        \/ exists u', join dbg hp hpo hd b input = POk u' /\ related dbg shs u' su /\ full_base dbg shs u' su
+                      /\ option_map api_front (api_of_model dbg u') = option_map api_front (api_of_model dbg b)).
+Proof. exact std_contain_file_drive_agree. Qed.
+Print Assumptions C08_std_contain_file_drive_agree.
+(* non-vacuity: against file:///tmp/d?q (both parsers) the references "C|/y", "d|", " C|\z?k#g" are in the class and meet
+   the premise of 11.11; both sides succeed with the serialization shown, the (empty) host is the base's *)
+Example C08_std_contain_file_drive_agree_inhabited :
+  std_fs_drive_agree_case (B "file:///tmp/d?q") [(B "C|/y", B "file:///C:/y"); (B "d|", B "file:///d:"); (B " C|\z?k#g", B "file:///C:/z?k#g")] = true.
+Proof. exact std_contain_file_drive_agree_inhabited. Qed.
